@@ -1117,9 +1117,11 @@ def allElems : List Elem :=
 /-- the contexts a verdict is computed over: canonical minimal contexts of the selectors involved,
     their perturbations, `nrand` pseudo-random contexts; `exh` adds every single-element context -/
 def ctxUniverse (sels : List SelList) (seed nrand : Nat) (exh : Bool) : List Ctx :=
-  let canon := sels.flatMap canonList
-  let atoms := (sels.flatMap atomsOf).eraseDups
-  let all := canon ++ canon.flatMap (perturbLines atoms) ++ randCtxs atoms nrand seed ++
+  -- caps keep the cost bounded when a selector list is large (weave output can have 100+ complexes)
+  let canon := sels.flatMap fun l => (canonList l).take 24
+  let atoms := ((sels.flatMap atomsOf).eraseDups).take 24
+  let pert := (sels.flatMap fun l => ((canonList l).take 6).flatMap (perturbLines atoms)).take 3000
+  let all := canon ++ pert ++ randCtxs atoms nrand seed ++
     (if exh then allElems.map (fun e => [[e]]) else [])
   all.filterMap linesToCtx
 
